@@ -69,10 +69,11 @@ SubErr(i, q) ==
 
 (* KSI_HighAvailabilityService_run hands back the head of the response queue, if any *)
 Run ==
-    /\ IF respQ = <<>> THEN /\ out' = [op |-> "run", t |-> "none", q |-> 0, state |-> "-"] /\ UNCHANGED <<respQ, ret, retAs>>
+    /\ IF respQ = <<>> THEN /\ out' = [op |-> "run", t |-> "none", q |-> 0, state |-> "-", ep |-> 0] /\ UNCHANGED <<respQ, ret, retAs>>
        ELSE LET h == Head(respQ) IN
             /\ respQ' = Tail(respQ)
-            /\ out' = [op |-> "run", t |-> h.t, q |-> h.q, state |-> IF h.t = "req" THEN qst[h.q] ELSE "notice"]
+            \* an error notice names the endpoint that failed (its parent id), not the one whose reply completed the request
+            /\ out' = [op |-> "run", t |-> h.t, q |-> h.q, state |-> IF h.t = "req" THEN qst[h.q] ELSE "notice", ep |-> IF h.t = "notice" THEN h.ep ELSE 0]
             /\ IF h.t = "req" THEN /\ ret' = [ret EXCEPT ![h.q] = @ + 1] /\ retAs' = [retAs EXCEPT ![h.q] = qst[h.q]]
                               ELSE UNCHANGED <<ret, retAs>>
     /\ UNCHANGED <<qst, exp, fwd, sub, qerr, gotResp, gotErr>>
